@@ -10,7 +10,11 @@
                                 [PeerSend g f] stands for one MESSAGE: a SECS-I block the peer
                                 transmits again because it missed the ACK (E4 RTY) is dropped by
                                 the assembler before DeliverOwnedFrame - no step of this LTS, recv
-                                unchanged; likewise a block the library retransmits is one WriteOk
+                                unchanged; likewise a block the library retransmits is one WriteOk.
+                                A data frame carrying a foreign Session ID is a [PeerSend] like any
+                                other: with session-id validation on, its [Route] counts it (recv+1)
+                                and hands it to no waiter and no handler, and the S9F1 answer is an
+                                asynchronous data call entered by the environment (sent+1 when written)
       inc/decDataMsgInflight    sendWaitReply, W-bit data, after writeFrame returned nil /
                                 one defer covering all four select branches                 (Arm / Complete* )
       incDataMsgErr             sendWaitReply+sendNoReply: data and isCountedSendErr(write error);
